@@ -13,7 +13,7 @@ RUST_KEYWORDS = ["as", "break", "const", "continue", "else", "enum", "extern", "
 
 RULE_NAMES = ["Aa", "Bb", "Cc", "Dd", "Ee", "Ff", "Gg", "Hh", "Jj", "Kk", "Mm", "Nn", "Pp", "Qq", "Rr", "Tt",
               "Uu", "Vv", "Ww", "Xx", "Yy", "Zz", "Expr", "Term", "Item", "Node", "Leaf", "Tok", "Word", "Num"]
-FIELD_NAMES = ["a", "b", "c", "d", "e", "f", "x", "y", "z", "lhs", "rhs", "items", "f1", "f2", "name", "val"]
+FIELD_NAMES = ["a", "b", "c", "d", "e", "f", "x", "y", "z", "lhs", "rhs", "items", "f1", "f2", "name", "val", "f_1", "my_field2", "x10", "a_b_c"]
 
 DEFAULT_PROFILE = dict(
     nrules=(3, 7), depth=3,
@@ -232,7 +232,7 @@ class Gen:
 
     def char_rule(self, nm, i):
         parts = []
-        for _ in range(self.r.randint(1, 3)):
+        for _ in range(self.r.randint(1, 3) if not self.coin(0.05) else self.r.randint(8, 12)):
             x = self.r.random()
             later_char = [m for m in self.names[i + 1:] if self.kinds[m] == "char"]
             if x < 0.35:
@@ -284,7 +284,7 @@ class Gen:
         self.cur_i = i
         self.used_fields = []
         if kind in ("struct",):
-            body = self.cho(p["depth"], "named", consumed=False)
+            body = self.cho(p["depth"] + (3 if self.coin(0.04) else 0), "named", consumed=False)
             if i == 0:
                 if lr_cluster and self.coin(0.9):
                     ent = Ref(lr_cluster["entry"], self.r.choice(self.fieldpool))
@@ -348,10 +348,16 @@ class Gen:
     # ------------------------------------------------------------------ expressions
     def cho(self, depth, mode, consumed):
         n = self.r.choices([1, 2, 3], [5, 3, 1])[0] if depth > 0 else 1
+        if depth > 0 and self.coin(0.015):
+            n = self.r.randint(10, 13)  # wide choice (generated names choice_10 ..)
+            return Cho([self.seq(0, mode, consumed) for _ in range(n)])
         return Cho([self.seq(depth, mode, consumed) for _ in range(n)])
 
     def seq(self, depth, mode, consumed):
         n = self.r.choices([0, 1, 2, 3, 4], [0.3, 3, 4, 3, 1])[0]
+        if depth > 0 and self.coin(0.015):
+            n = self.r.randint(10, 14)  # wide sequence (generated names part_10 ..)
+            depth = 1
         parts = []
         for _ in range(n):
             e = self.part(depth, mode, consumed)
